@@ -63,6 +63,13 @@ class Interp:
             return VModule(e["v"])
         if k == "other":
             return VOpaque(e["v"], z3.IntVal(e["oid"])) if "oid" in e else VOpaque(e["v"])
+        if k in ("dict", "list", "set"):
+            # a mutable module- or class-level object exists ONCE: every read of the name yields the same object (two
+            # instances sharing a class-level dict see each other's writes)
+            cache = self.st.__dict__.setdefault("table_objs", {})
+            if id(e) not in cache:
+                cache[id(e)] = self.from_py(dec(e))
+            return cache[id(e)]
         return self.from_py(dec(e))
 
     def truthy(self, v):
